@@ -10,6 +10,8 @@
 // certificate chain.
 //   - one round, lookup ok/notfound/error: the outcome of the lookup is injected and
 //     the real CheckConn (verifyDANE) judges the connection;
+//   - rounds with lookup "wire": the RRset is published (signed zone) and reaches the
+//     code through the real PrepareConn / discoverTLSA / resolver conversion;
 //   - rounds with lookup "disc": the real PrepareConn (discoverTLSA against a DNS
 //     server on loopback) and CheckConn, all rounds on the SAME delivery object.
 //     mode "seq": PrepareConn(k), CheckConn(k), then round k+1.
@@ -83,6 +85,28 @@ type Round struct {
 	Lookup string `json:"lookup"`
 	Recs   []Rec  `json:"recs"`
 	Disc   Disc   `json:"disc"`
+	Mxl    string `json:"mxl"` // MX level established by the policies before mx_auth.dane
+	Tll    string `json:"tll"` // TLS level established before mx_auth.dane
+}
+
+func (r Round) mxLevel() module.MXLevel {
+	switch r.Mxl {
+	case "mtasts":
+		return module.MX_MTASTS
+	case "dnssec":
+		return module.MX_DNSSEC
+	}
+	return module.MXNone
+}
+
+func (r Round) tlsLevel() module.TLSLevel {
+	switch r.Tll {
+	case "encrypted":
+		return module.TLSEncrypted
+	case "authenticated":
+		return module.TLSAuthenticated
+	}
+	return module.TLSNone
 }
 
 type In struct {
@@ -411,6 +435,12 @@ func (e *discEnv) addZones(mx string, in Round, recs []dns.TLSA) {
 	z := e.zones
 	host := mx + "."
 	tname := "_25._tcp." + host
+	if in.Lookup == "wire" { // the RRset as published in a signed zone
+		in.Disc = Disc{A: "ad", TLSA: "recs_ad"}
+		if len(recs) == 0 {
+			in.Disc.TLSA = "nodata"
+		}
+	}
 	switch in.Disc.A {
 	case "ad":
 		z[host] = mockdns.Zone{AD: true, A: []string{"127.0.0.1"}}
@@ -461,13 +491,13 @@ func runInjected(t *testing.T, p *pki, id int, in Round) out {
 	guard(&o, func() {
 		switch in.Lookup {
 		case "ok":
-			o.setConn(remote.VerifDANECheckConn(ctx, recs, nil, mx, st))
+			o.setConn(remote.VerifDANECheckConnLevels(ctx, recs, nil, in.mxLevel(), in.tlsLevel(), mx, st))
 		case "notfound":
-			o.setConn(remote.VerifDANECheckConn(ctx, []dns.TLSA(nil),
-				dns.RCodeError{Name: mx + ".", Code: miekgdns.RcodeNameError}, mx, st))
+			o.setConn(remote.VerifDANECheckConnLevels(ctx, []dns.TLSA(nil),
+				dns.RCodeError{Name: mx + ".", Code: miekgdns.RcodeNameError}, in.mxLevel(), in.tlsLevel(), mx, st))
 		case "error":
-			o.setConn(remote.VerifDANECheckConn(ctx, []dns.TLSA(nil),
-				dns.RCodeError{Name: mx + ".", Code: miekgdns.RcodeServerFailure}, mx, st))
+			o.setConn(remote.VerifDANECheckConnLevels(ctx, []dns.TLSA(nil),
+				dns.RCodeError{Name: mx + ".", Code: miekgdns.RcodeServerFailure}, in.mxLevel(), in.tlsLevel(), mx, st))
 		default:
 			t.Fatalf("row %d: unknown lookup %q", id, in.Lookup)
 		}
@@ -535,7 +565,7 @@ func runDelivery(t *testing.T, p *pki, e *discEnv, r Row) rowOut {
 	check := func(k int) {
 		mx := mxName(k + 1)
 		guard(&ro.Rounds[k], func() {
-			level, err := d.CheckConn(ctx, module.MXNone, module.TLSNone, "example.invalid", mx, states[k])
+			level, err := d.CheckConn(ctx, in.Rounds[k].mxLevel(), in.Rounds[k].tlsLevel(), "example.invalid", mx, states[k])
 			if isTimeout(err) {
 				ro.Infra = "DNS time-out talking to the mock server: " + err.Error()
 			}
@@ -577,12 +607,13 @@ func runDelivery(t *testing.T, p *pki, e *discEnv, r Row) rowOut {
 
 func runRow(t *testing.T, p *pki, env func() *discEnv, r Row) rowOut {
 	in := r.In
-	if len(in.Rounds) == 1 && in.Rounds[0].Lookup != "disc" {
+	real := func(lk string) bool { return lk == "disc" || lk == "wire" }
+	if len(in.Rounds) == 1 && !real(in.Rounds[0].Lookup) {
 		return rowOut{Rounds: []out{runInjected(t, p, r.ID, in.Rounds[0])}}
 	}
 	for _, rd := range in.Rounds {
-		if rd.Lookup != "disc" {
-			t.Fatalf("row %d: a history of several MXs must use lookup=disc", r.ID)
+		if !real(rd.Lookup) {
+			t.Fatalf("row %d: a history of several MXs must use the real discovery", r.ID)
 		}
 	}
 	var ro rowOut
